@@ -149,6 +149,8 @@ def gen_cases(rng, tier):
         vals = sorted(set(x for x, _ in P + N)) or [Fraction(0)]
         thr = sorted(set([rng.choice(vals), rng.choice(vals), rng.choice(vals) + Fraction(1, 2),
                           vals[0] - 1, vals[-1] + 1]))
+        if k % 3 == 1:      # thresholds in descending or arbitrary order (e.g. what threshold_at_fpr returns for a rising grid)
+            thr = thr[::-1] if k % 2 else rng.sample(thr, len(thr))
         unknown = 99 if kind == "int" else "nope"
         c = {"pos": [enc(x) for x, _ in P], "neg": [enc(x) for x, _ in N], "pg": [l for _, l in P],
              "ng": [l for _, l in N], "names": gnames, "kind": kind, "sc": sc, "ec": ec, "is_sorted": is_sorted,
